@@ -261,6 +261,45 @@ def merge_part(rep):
     rep.part('FieldAttr::merge docs rule', paths=ex.paths)
 
 
+def docs_do_not_alter_type(rep):
+    """Tier B: the same definition with and without doc comments (corpus D1 / D2): inline() differs exactly by the field's comment
+    block, DOCS carries the container's text, the declared type is otherwise identical -- for all type arguments"""
+    from . import tyres
+    from mirsym.interp import Hole
+    tyres.setup()
+    TG = tyres.G
+    ex = Explorer()
+
+    def h(ctx):
+        r = tyres.Resolver(['T'])
+        m = tyres.machine(ctx, r)
+        out = {}
+        for ty in ('D1<T>', 'D2<T>'):
+            for meth in ('inline', 'decl'):
+                out[(ty, meth)] = list(m.call(f'<{ty} as TS>::{meth}', []).cs)
+        out['docs1'] = m.operand(None, ('const', ('path', '<D1<T> as TS>::DOCS')))
+        out['docs2'] = m.operand(None, ('const', ('path', '<D2<T> as TS>::DOCS')))
+        return out
+    try:
+        res = ex.run(h)
+    except (Unsupported, Panic) as e:
+        rep.inconclusive.append(f'docs_do_not_alter_type: {e}')
+        return
+    for pc, o_ in res:
+        rep.obligations += 1
+        strip = lambda rope: re.sub(r'\n/\*\*.*?\*/\n', '', tyres.show_rope(rope), flags=re.S)
+        a, b = strip(o_[('D1<T>', 'inline')]), tyres.show_rope(o_[('D2<T>', 'inline')])
+        da, db = strip(o_[('D1<T>', 'decl')]).replace('D1', 'D'), tyres.show_rope(o_[('D2<T>', 'decl')]).replace('D2', 'D')
+        has_block = '/**' in tyres.show_rope(o_[('D1<T>', 'inline')])
+        if a != b or da != db or not has_block:
+            rep.violations.append({'what': f'doc comments alter the declared type or are lost: with docs {tyres.show_rope(o_[("D1<T>", "inline")])!r}, '
+                                           f'without {b!r}', 'witness': {}, 'key': 'docs/type'})
+        else:
+            rep.discharged += 1
+    rep.absorb(dict(paths=ex.paths, nontrivial=ex.paths, queries=ex.queries, solver_s=ex.solver_s))
+    rep.part('docs do not alter the type (tier B corpus D1/D2)', paths=ex.paths)
+
+
 def main():
     rep = report.Report('C15', 'bounded symbolic execution of rustc MIR: parse_docs/escape_doc on attribute lists whose kind flags and doc '
                                'text bytes are symbolic; z3 decides on every path that the result is empty or one /** .. */ block whose only '
@@ -276,6 +315,7 @@ def main():
         merge_part(rep)
     except Unsupported as e:
         rep.inconclusive.append(f'merge_part: {e}')
+    docs_do_not_alter_type(rep)
     maxlen = 4 if quick else 5
     items = [()] + [(a,) for a in range(0, maxlen + 2)] + [(a, b) for a in range(0, maxlen + 1) for b in range(0, maxlen + 1) if a + b <= maxlen + 1]
     items += [(a, b, c) for a in range(0, 2 if quick else 3) for b in range(0, 2 if quick else 3) for c in range(0, 2 if quick else 3)]
